@@ -351,7 +351,7 @@ def instances(decl, mode, seed, n):
 def cover_check(decl, mode, seed, n, backend, what):
     """what: 'C08' (to_expr), 'C09' (minimize), 'C10' (enumeration)."""
     def run():
-        logging.getLogger('omega').setLevel(logging.ERROR)
+        pass      # logging level: set per family by ovc.run._logging_mode (half of the families at DEBUG)
         ref, insts = instances(decl, mode, seed, n)
         names = ref.names
         fails = list()
@@ -466,4 +466,47 @@ def cover_check(decl, mode, seed, n, backend, what):
             'omega.symbolic.orthotopes.list_expr': dict(source_lines=0, cut={}, stubs=[], dropped='run natively: bounded')},
             bounded=dict(evaluations=evals, decl=str(decl), mode=mode, backend=backend,
                          exhaustive=(mode == 'all-care-hint' and not n), failures=fails[:6]))
+    return run
+
+
+def wide_display(backend):
+    """BOUNDED: printing with `show_limits` / `show_dom` for variables of 10 and
+    more bits (limits of four digits): the text is accepted by the parser and
+    denotes the predicate on the care set.  The evaluator is the library's own
+    `add_expr` (C06), compared as BDDs."""
+    def run():
+        fails = list()
+        n = 0
+        cases = [
+            (dict(x=(0, 1000)), [r'(x >= 100) /\ (x <= 900)', r'(x = 7) \/ (x > 1000)', 'x <= 1000'], [None, r'x \in 0..1000']),
+            (dict(x=(-600, 700), y=(0, 1)), [r'(x < -512) \/ (y = 1)', r'(x >= -600) /\ (x <= 700) /\ (y = 0)'], [None, r'(x \in -600..700) /\ (y \in 0..1)']),
+            (dict(x=(-2000, -1)), [r'x <= -1025', r'(x >= -2000) /\ (x # -1500)'], [None]),
+        ]
+        for decl, preds, cares in cases:
+            for ptxt in preds:
+                for ctxt in cares:
+                    for opts in (dict(show_limits=True), dict(show_dom=True), dict(show_limits=True, show_dom=True), dict()):
+                        n += 1
+                        c = _mk(decl, backend)
+                        f = c.add_expr(ptxt)
+                        care = c.add_expr(ctxt) if ctxt else None
+                        try:
+                            s = c.to_expr(f, care=care, **opts)
+                            g = c.add_expr(s.replace('care expression', 'TRUE'))
+                        except AssertionError as e:
+                            if '_clip_subrange' in _raised_in(e):
+                                continue      # open finding C08-show-dom-box-outside-hints
+                            fails.append(dict(name='Context.to_expr returns a formula that the parser accepts (wide variables)',
+                                              error=repr(e)[:160], predicate=ptxt, care=str(ctxt), options=str(opts), decl=str(decl)))
+                            continue
+                        except Exception as e:
+                            if len(fails) < 6:
+                                fails.append(dict(name='Context.to_expr returns a formula that the parser accepts (wide variables)',
+                                                  error=repr(e)[:160], predicate=ptxt, care=str(ctxt), options=str(opts), decl=str(decl)))
+                            continue
+                        cu = care if care is not None else c.true
+                        if (g & cu) != (f & cu) and len(fails) < 6:
+                            fails.append(dict(name='the printed formula agrees with the predicate on the care set (wide variables)',
+                                              predicate=ptxt, care=str(ctxt), options=str(opts), text=s[-200:], decl=str(decl)))
+        return dict(records=[], stats=dict(), functions={}, bounded=dict(evaluations=n, backend=backend, failures=fails[:6]))
     return run
